@@ -388,6 +388,17 @@ func (o *lookupOut) matches(e *entry) bool {
 	}
 }
 
+// sigNotSentinel: a failed lookup must be reported with the package's sentinel dns.ErrLookup
+// itself. The callers decide by identity: router/route.go `lookup` does `err == dns.ErrLookup`
+// to fall through to the next resolver ("use all resolvers by order"), and
+// router.DialResultCodeFromError only maps the router's own "no available resolvers" and
+// dns.ErrDomainNoAssociatedIPs to "domain name lookup error". A wrapped or different error
+// aborts route matching with "other error".
+const sigNotSentinel = "SIG=C17/lookup-failure-is-not-the-ErrLookup-sentinel"
+
+// isSentinel reports whether the failure is dns.ErrLookup by identity.
+func (o *lookupOut) isSentinel() bool { return o.err == dns.ErrLookup }
+
 // isFailure reports whether the outcome reports a failed lookup.
 func (o *lookupOut) isFailure() bool {
 	return o.err != nil && !errors.Is(o.err, dns.ErrDomainNoAssociatedIPs)
